@@ -171,6 +171,31 @@ pub fn lenient_family(cfg: &FileCfg, name: &str) -> bool {
 }
 pub const SIG_LENIENT: &str = "foreign-name-passes-lenient-family-filter";
 
+/// names of the family pattern itself that the histories never produce (a far index, a far
+/// future instant): used for SUB-DIRECTORIES "named like log files" only
+pub fn family_named_dirs(cfg: &FileCfg, t0_ns: i64) -> Vec<String> {
+    let prefix = cfg.static_prefix();
+    let sfx = cfg.suffix.clone().map(|s| format!(".{s}")).unwrap_or_default();
+    let sep = if prefix.is_empty() { "" } else { "_" };
+    let mut v = Vec::new();
+    if let Some(nam) = cfg.nam() {
+        match nam.ts_format() {
+            None => {
+                v.push(format!("{prefix}{sep}r77777{sfx}"));
+                v.push(format!("{prefix}{sep}r77778{sfx}.gz"));
+            }
+            Some(fmt) => {
+                let t = ns_to_local(t0_ns + 40 * 366 * 86_400 * 1_000_000_000);
+                let infix = if cfg.utc { t.naive_utc().format(&fmt).to_string() } else { t.format(&fmt).to_string() };
+                v.push(format!("{prefix}{sep}{infix}{sfx}"));
+                v.push(format!("{prefix}{sep}{infix}.restart-0000{sfx}.gz"));
+            }
+        }
+    }
+    v.retain(|n| classify(cfg, n).is_some());
+    v
+}
+
 fn selector(bits: u8, custom: Option<String>) -> LogfileSelector {
     let mut s = if bits & 1 != 0 { LogfileSelector::default() } else { LogfileSelector::none() };
     if bits & 2 != 0 {
@@ -216,7 +241,7 @@ fn one_run(case: &Case, with_foreign: bool, sc: &Scratch, tag: &str) -> Result<(
                 }
             }
         }
-        before = snapshot(&dir).into_iter().filter(|e| classify(cfg, &e.name).is_none()).collect();
+        before = snapshot(&dir).into_iter().filter(|e| classify(cfg, &e.name).is_none() || case.foreign.iter().any(|f| f.name == e.name)).collect();
     }
     let custom = cfg.nam().and_then(Nam::current_token);
     let mut listed = Vec::new();
@@ -236,11 +261,11 @@ fn one_run(case: &Case, with_foreign: bool, sc: &Scratch, tag: &str) -> Result<(
     let snap = snapshot(&dir);
     let mut family = BTreeMap::new();
     for e in &snap {
-        if e.kind == EKind::File && classify(cfg, &e.name).is_some() {
+        if e.kind == EKind::File && classify(cfg, &e.name).is_some() && !(with_foreign && case.foreign.iter().any(|f| f.name == e.name)) {
             family.insert(e.name.clone(), e.content.clone().unwrap_or_default());
         }
     }
-    let after: Vec<Entry> = snap.into_iter().filter(|e| classify(cfg, &e.name).is_none()).collect();
+    let after: Vec<Entry> = snap.into_iter().filter(|e| classify(cfg, &e.name).is_none() || (with_foreign && case.foreign.iter().any(|f| f.name == e.name))).collect();
     let errors = std::fs::read_to_string(&err).map(|e| crate::util::filter_errchan(&e).lines().filter(|l| l.contains("[flexi_logger]")).count()).unwrap_or(0);
     Ok((RunObs { family, listed, errors }, before, after))
 }
@@ -277,12 +302,19 @@ impl Property for P {
                     let k = names.len();
                     (Just(names), prop::collection::vec(prop_oneof![6 => prop::collection::vec(any::<u8>(), 0..30).prop_map(FKind::File), 1 => Just(FKind::Dir), 1 => Just(FKind::DanglingSymlink)], k..=k))
                 });
-                (Just(cfg), Just(t0), runs, foreign, 0u8..16)
+                let fam_dirs = family_named_dirs(&cfg, t0.to_ns());
+                let nfd = fam_dirs.len();
+                let dirs = prop::bool::weighted(0.25).prop_flat_map(move |with| {
+                    if with && nfd > 0 { proptest::sample::subsequence(fam_dirs.clone(), 1..=nfd).boxed() } else { Just(Vec::new()).boxed() }
+                });
+                (Just(cfg), Just(t0), runs, foreign, 0u8..16, dirs)
             })
-            .prop_map(|(cfg, t0, runs, (names, kinds), selector)| Case {
-                mr: MrCase { tz: crate::vtime::tz_name(), cfg, t0, runs },
-                foreign: names.into_iter().zip(kinds).map(|(name, kind)| Foreign { name, kind }).collect(),
-                selector,
+            .prop_map(|(cfg, t0, runs, (names, kinds), selector, dirs)| {
+                let mut foreign: Vec<Foreign> = names.into_iter().zip(kinds).map(|(name, kind)| Foreign { name, kind }).collect();
+                for d in dirs {
+                    foreign.push(Foreign { name: d, kind: FKind::Dir });
+                }
+                Case { mr: MrCase { tz: crate::vtime::tz_name(), cfg, t0, runs }, foreign, selector }
             })
             .boxed()
     }
@@ -341,10 +373,13 @@ impl Property for P {
         if case.foreign.iter().any(|f| matches!(f.kind, FKind::Dir)) {
             out.class("foreign-directory");
         }
+        if case.foreign.iter().any(|f| matches!(f.kind, FKind::Dir) && classify(cfg, &f.name).is_some()) {
+            out.class("sub-directory-with-family-name");
+        }
         if shares && relevant {
             out.nontrivial = true;
         }
-        let lenient = case.foreign.iter().any(|f| lenient_family(cfg, &f.name));
+        let lenient = case.foreign.iter().any(|f| lenient_family(cfg, &f.name) && classify(cfg, &f.name).is_none());
         if lenient {
             out.class("foreign-name-accepted-by-lenient-filter");
         }
